@@ -266,7 +266,7 @@ CHECKS = {
                      'Pangaea.C03.kwarg_var', 'Pangaea.C03.kwarg_all', 'Pangaea.C03.allPres', 'Pangaea.C03.call_changes_no_existing_scope',
                      'Pangaea.C03.eval_writes_only_current_scope', 'Pangaea.C03.program_writes_only_its_scope', 'Pangaea.C03.call_scope_encloses_definition',
                      'Pangaea.C03.method_call_passes_receiver', 'Pangaea.C03.anonymous_chain_receiver', 'Pangaea.C03.anonymous_chain_without_argument', 'Pangaea.C03.assign_writes_current_scope',
-                     'Pangaea.CoreMeta.evalE_fuel_mono', 'Pangaea.CoreMeta.program_fuel_mono', 'Pangaea.CoreMeta.call_fuel_mono'],
+                     'Pangaea.C03.lookup_falls_through', 'Pangaea.C03.lookup_innermost_wins', 'Pangaea.CoreMeta.evalE_fuel_mono', 'Pangaea.CoreMeta.program_fuel_mono', 'Pangaea.CoreMeta.call_fuel_mono'],
         'harness': ['C03'],
         'shards': 14,
         'spec_is_function': True,
